@@ -200,6 +200,7 @@ RULES = [
      lambda ctx: __import__("c10").r1(ctx, only=lambda s: s.fn.startswith("function::get_value") or s.fn in ("util::capitalize", "util::format_filesize", "util::format_filesize::{closure#0}", "searcher::Searcher::get_function_value") or s.fn.startswith("util::datetime::parse_datetime"), rule_prefix="fn-")),
     ("X-VARIANT", "Variant constructors, text renderings and coercion order [shared]", lambda ctx: __import__("extra").variant_constructors(ctx)),
     ("X-DATEALIKE", "unquoted date literals reach the functions whole (lexer look-ahead) [shared]", lambda ctx: __import__("extra").looks_like_date_rule(ctx)),
+    ("X-LITVALUE", "a literal argument evaluates to the text written in the query [shared]", lambda ctx: __import__("extra2").literal_is_its_text(ctx)),
 ]
 
 EXPLANATION = (
